@@ -55,7 +55,15 @@ func (r *rewriter) isCallStmtOf(pkg loader.Pkg, n ast.Node, callee types.Object)
 	if !ok {
 		return nil, false
 	}
-	call, ok := expr.X.(*ast.CallExpr)
+	x := expr.X
+	for { // a call statement may be parenthesized: (Yield(1))
+		paren, ok := x.(*ast.ParenExpr)
+		if !ok {
+			break
+		}
+		x = paren.X
+	}
+	call, ok := x.(*ast.CallExpr)
 	if !ok {
 		return nil, false
 	}
